@@ -5,6 +5,7 @@ import (
 	"encoding/binary"
 	"errors"
 	"io"
+	"math"
 
 	"github.com/arnodel/golua/code"
 )
@@ -213,21 +214,25 @@ func (r *breader) readCode(c *Code) {
 		&c.name,
 		&sz,
 	)
-	c.code = make([]code.Opcode, sz)
-	r.read(
-		4*uint64(sz)+8,
-		c.code,
-		&sz,
-	)
-	c.lines = make([]int32, sz)
-	r.read(
-		4*uint64(sz)+8,
-		c.lines,
-		&sz,
-	)
-	c.consts = make([]Value, sz)
-	for i := range c.consts {
-		c.consts[i] = r.readConst()
+	if raw := r.readBytes(sz, 4); r.err == nil {
+		c.code = make([]code.Opcode, sz)
+		for i := range c.code {
+			c.code[i] = code.Opcode(binary.LittleEndian.Uint32(raw[4*i:]))
+		}
+	}
+	r.read(8, &sz)
+	if raw := r.readBytes(sz, 4); r.err == nil {
+		c.lines = make([]int32, sz)
+		for i := range c.lines {
+			c.lines[i] = int32(binary.LittleEndian.Uint32(raw[4*i:]))
+		}
+	}
+	r.read(8, &sz)
+	r.checkLength(sz)
+	// The slice grows as constants are actually read: the length announced by
+	// the stream is not trusted for allocation.
+	for i := int64(0); i < sz && r.err == nil; i++ {
+		c.consts = append(c.consts, r.readConst())
 	}
 	r.read(
 		2+2+2+8,
@@ -236,10 +241,54 @@ func (r *breader) readCode(c *Code) {
 		&c.CellCount,
 		&sz,
 	)
-	c.UpNames = make([]string, sz)
-	for i := range c.UpNames {
-		c.UpNames[i] = r.readString()
+	if r.err == nil && (c.UpvalueCount < 0 || c.RegCount < 0 || c.CellCount < 0) {
+		r.err = errInvalidCode
 	}
+	r.checkLength(sz)
+	for i := int64(0); i < sz && r.err == nil; i++ {
+		c.UpNames = append(c.UpNames, r.readString())
+	}
+}
+
+// checkLength flags a negative length as a corrupt stream.
+func (r *breader) checkLength(n int64) {
+	if r.err == nil && n < 0 {
+		r.err = errInvalidLength
+	}
+}
+
+// maxEagerRead is the largest number of bytes readBytes allocates before
+// knowing that the reader can deliver them.
+const maxEagerRead = 1 << 16
+
+// readBytes reads n items of itemSize bytes each.  The budget is consumed
+// first, and memory is allocated in proportion to what the reader delivers,
+// not to what the stream announces.
+func (r *breader) readBytes(n int64, itemSize int64) []byte {
+	r.checkLength(n)
+	if r.err == nil && n > math.MaxInt64/itemSize {
+		r.err = errInvalidLength
+	}
+	if r.err != nil {
+		return nil
+	}
+	n *= itemSize
+	r.consumeBudget(uint64(n))
+	if n <= maxEagerRead {
+		b := make([]byte, n)
+		_, r.err = io.ReadFull(r.r, b)
+		return b
+	}
+	var buf bytes.Buffer
+	m, err := io.CopyN(&buf, r.r, n)
+	switch {
+	case err == nil:
+	case err == io.EOF && m > 0:
+		r.err = io.ErrUnexpectedEOF
+	default:
+		r.err = err
+	}
+	return buf.Bytes()
 }
 
 func (r *breader) read(sz uint64, xs ...interface{}) {
@@ -266,12 +315,7 @@ func (r *breader) readString() (s string) {
 	}
 	var sl int64
 	r.read(8, &sl)
-	if r.err != nil {
-		return
-	}
-	r.consumeBudget(uint64(sl))
-	b := make([]byte, sl)
-	_, r.err = r.r.Read(b)
+	b := r.readBytes(sl, 1)
 	if r.err == nil {
 		s = string(b)
 	}
@@ -289,3 +333,5 @@ func (r *breader) consumeBudget(amount uint64) {
 }
 
 var errInvalidValueType = errors.New("Invalid value type")
+var errInvalidLength = errors.New("Invalid length")
+var errInvalidCode = errors.New("Invalid code")
